@@ -534,7 +534,7 @@ func c12Formulas(c *Ctx, fnm map[string]*ssa.Function) {
 		}
 		c.Check(okTag, "K-C12-formulas", fn, "T = MSB_128(E(K,J0) xor GHASH(H,A,C))", "", "tag computation deviates: "+detail, ret.Pos())
 		// counter blocks and CTR loop
-		Y := "call:sm4.incr(add(0x1,res0(call:sm4." + n + "$1(quo(len(" + text + "),0x10),rem(len(" + text + "),0x10)))),"+Y0+")"
+		Y := "call:sm4.incr(add(0x1,res0(call:sm4." + n + "$1(quo(len(" + text + "),0x10),rem(len(" + text + "),0x10))))," + Y0 + ")"
 		okCtr := false
 		for _, h := range loopHeaders(f) {
 			ld := describeLoop(f, h, names)
